@@ -309,7 +309,8 @@ def check_decisions(ctx: Ctx) -> None:
                 for be in [x for x, lab in h.succ if lab == "iter"]:
                     for _end, _env, _benv, outs in dec.walk(sfi, be, lambda n, h=h: n is h, al):
                         for o in outs:
-                            vals |= o
+                            if isinstance(o, frozenset):
+                                vals |= o
             else:
                 vals |= dec.ev(sfi, h.elt, {}, {}, al, 0)
             outcomes[(s, e)] = vals
